@@ -96,9 +96,15 @@ func Division(left, right value.Value) error {
 		switch right.Type() {
 		case value.IntegerType: // RTIME /= INTEGER
 			rv := value.Unwrap[*value.Integer](right)
+			if rv.Value == 0 {
+				return errors.WithStack(fmt.Errorf("division by zero"))
+			}
 			lv.Value /= time.Duration(rv.Value)
 		case value.FloatType: // RTIME /= FLOAT
 			rv := value.Unwrap[*value.Float](right)
+			if time.Duration(rv.Value) == 0 {
+				return errors.WithStack(fmt.Errorf("division by zero"))
+			}
 			lv.Value /= time.Duration(rv.Value)
 		default:
 			return errors.WithStack(fmt.Errorf("invalid division RTIME type, got %s", right.Type()))
